@@ -158,6 +158,19 @@ CHECKS["C05"] = dict(
     note=COMMON_NOTE + " Scope: the exchange moves of one table share one labelling convention (fresh labels or one negative label); a "
          "non-negative label configured on an exchange move merges particles by the user's own choice and is exercised on displacement moves only.")
 
+CHECKS["C04"] = dict(
+    technique="Coq proof for an arbitrary calculator function and opaque configurations (Model/Calc.v, Proofs/CalcProofs.v, Props/C04.v: "
+              "invariant by induction over accept/reject/fail histories) + functional correspondence of Calc.run (vm_compute) on the "
+              "outcome sequence of real runs with counting calculators, and an independent calculator on atoms.copy() after every trial",
+    text="Theorems for every calculator function E, every history: between trials cached result = reference energy = E(current "
+         "configuration), calc.atoms = remembered geometry = current; asking for the energy then costs no evaluation (logging and "
+         "rejection are free); a trial costs exactly one evaluation iff it reached its criteria with a changed configuration, none "
+         "if it failed; the initial reference energy is right whatever (truthful) state the calculator was in. Open finding: "
+         "grand-canonical runs with calculators that keep per-atom internal state.",
+    ref="§4 C04",
+    note=COMMON_NOTE + " ASE's Calculator.get_property caching rule is modelled (compare_atoms = identical or not); the count clause is "
+         "checked for result-caching calculators and not for Hamiltonian moves.")
+
 NA_REASON = "check not built yet in this round (see DESIGN.md §8 order of construction); no weaker technique substituted"
 
 
